@@ -747,6 +747,40 @@ def run(ctx) -> core.Report:
             lines.append(f"route {q(method)} {'true' if lin else 'false'} {'1' if lin else '2'} ()")
             metas.append(("route-table", took, None, method))
             rep.evaluations += 1
+    # `_auto_select_method`: every (objective degree class) × (constraint degree classes) cell, against the model
+    from optyx.analysis import compute_degree
+    from optyx.core.functions import sin as _sin
+    y = Variable("y", lb=-1, ub=3)
+    objs = [("2", lambda: (x - 1) ** 2 + y * y), ("3", lambda: (x - 1) ** 2 + 0.1 * x ** 3 + y * y), ("4", lambda: (x - 1) ** 4 + y * y),
+            ("none", lambda: (x - 1) ** 2 + _sin(y)), ("1", lambda: x + y)]
+    cons_ = [("", lambda: []), ("1", lambda: [x + y <= 3]), ("2", lambda: [x * 2 + y ** 2 <= 9]), ("3", lambda: [x ** 3 + y <= 30]),
+             ("none", lambda: [_sin(x) + y <= 3]), ("1,3", lambda: [x + y <= 3, x ** 3 + y <= 30]), ("2,2", lambda: [x ** 2 <= 16, y ** 2 <= 9])]
+    auto_lines, auto_metas = [], []
+    for on, mk in objs:
+        for cn, mc in cons_:
+            if on == "1" and cn in ("", "1"):
+                continue   # a linear problem never reaches _auto_select_method
+            P = Problem().minimize(mk())
+            for c_ in mc():
+                P.subject_to(c_)
+            with MinimizeSpy() as spy:
+                with warnings.catch_warnings():
+                    warnings.simplefilter("ignore")
+                    try:
+                        P.solve(method="auto")
+                        took = spy.calls[0]["method"] if spy.calls else "lp"
+                    except Exception as ex:  # noqa: BLE001
+                        took = "raise:" + type(ex).__name__
+            od = compute_degree(P.objective)
+            cds = [compute_degree(c_.expr) for c_ in P.constraints]
+            auto_lines.append(f"autosel {degree_text(od)} (" + " ".join(degree_text(d) for d in cds) + ")")
+            auto_metas.append((took, on, cn))
+            rep.evaluations += 1
+            rep.nontrivial.add(("autosel", on, cn))
+    for (took, on, cn), model in zip(auto_metas, core.run_lean(auto_lines)):
+        if took != model:
+            rep.corr_mismatches.append({"what": "method chosen by solve('auto') differs from Py.autoSelect",
+                                        "impl": took, "model": model, "objective_degree": on, "constraint_degrees": cn})
     outs = core.run_lean(lines[-20:])
     for (kind, real, _, method), model in zip(metas[-20:], outs):
         m2 = "lp" if model.startswith("lp:") else model
